@@ -288,7 +288,7 @@ def run_lazy(desc, uses, policy, intern, timeout=2.0):
             return ("new", cmap.get(id(loc.get("spec_cls"))), cmap.get(id(loc.get("cls"))), id(frame))
         return None
 
-    sch = S.Sched(st["files"], timeout=timeout, probe=probe)
+    sch = S.Sched(st["files"], timeout=timeout, probe=probe, max_steps=40000)
     thunks = [make_thunk(desc, classes, sub, u, cmap, intern) for u in uses]
     r = sch.run(thunks, policy)
     outs = []
